@@ -1395,3 +1395,101 @@ Section BatchCorollaries.
     apply tab_conv_row_equivariant; auto. rewrite (HX row Hrow). assumption.
   Qed.
 End BatchCorollaries.
+
+(* ================================================================== *)
+(* 11. ghost batch norm: the chunk arithmetic for every batch size     *)
+(* ================================================================== *)
+Section GhostChunks.
+  Lemma cdiv_mul_ge : forall a b, 0 < b -> a <= b * cdiv a b.
+  Proof.
+    intros a b Hb. unfold cdiv.
+    pose proof (Nat.div_mod (a + b - 1) b ltac:(lia)) as E.
+    pose proof (Nat.mod_upper_bound (a + b - 1) b ltac:(lia)) as M. nia.
+  Qed.
+
+  Lemma cdiv_le_of_mul : forall a b c, 0 < b -> a <= b * c -> cdiv a b <= c.
+  Proof.
+    intros a b c Hb H. unfold cdiv.
+    assert (Hlt : (a + b - 1) / b < S c); [|lia].
+    apply Nat.div_lt_upper_bound; [lia|]. nia.
+  Qed.
+
+  Lemma cdiv_pos' : forall a b, 0 < a -> 0 < b -> 0 < cdiv a b.
+  Proof. intros a b Ha Hb. unfold cdiv. apply Nat.div_str_pos. lia. Qed.
+
+  (* chunk size of torch.chunk(x, ceil(n / v)) never exceeds the virtual batch size v *)
+  Lemma ghost_chunk_size_le : forall n v, 0 < n -> 0 < v -> cdiv n (cdiv n v) <= v.
+  Proof.
+    intros n v Hn Hv. apply cdiv_le_of_mul; [apply cdiv_pos'; assumption|].
+    rewrite Nat.mul_comm. apply cdiv_mul_ge. assumption.
+  Qed.
+
+  (* GhostBatchNorm1d.forward, the pieces self.bn is called with, for EVERY batch size n >= 1 and every virtual
+     batch size v >= 1:  in order, they partition the batch; each has between 1 and v rows; all but the last have
+     exactly ceil(n / ceil(n / v)) rows; there are at most ceil(n / v) of them *)
+  Theorem ghost_chunks_partition_lemma : forall {A} v (X : list A), 0 < v -> 0 < length X ->
+    let k := cdiv (length X) (cdiv (length X) v) in
+    let cs := torch_chunk (cdiv (length X) v) X in
+    concat cs = X /\
+    Forall (fun c => 0 < length c <= v) cs /\
+    (forall pre last, cs = pre ++ [last] -> Forall (fun c => length c = k) pre) /\
+    length cs <= cdiv (length X) v.
+  Proof.
+    intros A v X Hv Hn k cs.
+    assert (Hm : 0 < cdiv (length X) v) by (apply cdiv_pos'; assumption).
+    assert (Hk : 0 < k) by (apply cdiv_pos'; assumption).
+    assert (Hkv : k <= v) by (apply ghost_chunk_size_le; assumption).
+    unfold cs, torch_chunk. fold k. repeat split.
+    - apply chunks_concat. assumption.
+    - eapply Forall_impl; [|apply (chunks_sizes k X Hk)]. cbv beta. intros c Hc. lia.
+    - intros pre last E. eapply chunks_all_but_last_full; eassumption.
+    - rewrite chunks_count by assumption. change ((length X + k - 1) / k) with (cdiv (length X) k).
+      apply cdiv_le_of_mul; [assumption|]. rewrite Nat.mul_comm. unfold k. apply cdiv_mul_ge. assumption.
+  Qed.
+End GhostChunks.
+
+(* ================================================================== *)
+(* 12. the causal mask as an integer comparison over column ids         *)
+(* ================================================================== *)
+Section IntegerMask.
+  Lemma nth_error_ids_int64 : forall n i, i < n -> nth_error (ids_int64 n) i = Some (Z.of_nat i).
+  Proof.
+    intros n i H. unfold ids_int64. rewrite nth_error_map, nth_error_seq' by assumption. reflexivity.
+  Qed.
+
+  (* with the int64 buffer torch.arange(num_cols) the mask is "key column <= query column" for EVERY width *)
+  Theorem mask_allowed_int64_lemma : forall n j l, j < n -> l < n -> mask_allowed (ids_int64 n) j l = (l <=? j).
+  Proof.
+    intros n j l Hj Hl. unfold mask_allowed. rewrite !nth_error_ids_int64 by assumption.
+    destruct (l <=? j) eqn:E.
+    - apply Nat.leb_le in E. apply Z.leb_le. lia.
+    - apply Nat.leb_gt in E. apply Z.leb_gt. lia.
+  Qed.
+
+  Lemma wrap8_small : forall z, (0 <= z < 128)%Z -> wrap8 z = z.
+  Proof. intros z H. unfold wrap8. rewrite Z.mod_small by lia. lia. Qed.
+
+  (* an 8-bit buffer is still right up to 128 columns ... *)
+  Theorem mask_allowed_int8_upto_128_lemma : forall n j l, n <= 128 -> j < n -> l < n ->
+    mask_allowed (ids_int8 n) j l = (l <=? j).
+  Proof.
+    intros n j l Hn Hj Hl. unfold mask_allowed, ids_int8.
+    rewrite !nth_error_map, !nth_error_seq' by assumption. cbn [option_map Nat.add].
+    rewrite !wrap8_small by lia.
+    destruct (l <=? j) eqn:E.
+    - apply Nat.leb_le in E. apply Z.leb_le. lia.
+    - apply Nat.leb_gt in E. apply Z.leb_gt. lia.
+  Qed.
+
+  (* ... and wrong from 129 columns on: column 0 may attend to the LATER column 128 *)
+  Theorem mask_int8_refuted_lemma : exists n j l, j < n /\ l < n /\ j < l /\ mask_allowed (ids_int8 n) j l = true.
+  Proof. exists 129, 0, 128. split; [lia|]. split; [lia|]. split; [lia|]. vm_compute. reflexivity. Qed.
+
+  (* the mask of Model/Layers.v (diam_mask_row) is this comparison on the int64 ids *)
+  Lemma diam_mask_row_is_integer_comparison : forall {R} (O : Ops R) n j l, j < n -> l < n ->
+    nth_error (diam_mask_row O n j) l = Some (if mask_allowed (ids_int64 n) j l then o0 O else onegbig O).
+  Proof.
+    intros R O n j l Hj Hl. unfold diam_mask_row. rewrite nth_error_map, nth_error_seq' by assumption.
+    cbn [option_map Nat.add]. rewrite mask_allowed_int64_lemma by assumption. reflexivity.
+  Qed.
+End IntegerMask.
